@@ -376,8 +376,9 @@ func newWriteObjectCloser(
 }
 
 func (w *writeObjectCloser) Write(p []byte) (int, error) {
+	p, verifFault := verifhook.BeforeWrite("os.write", p)
 	n, err := w.file.Write(p)
-	n, err = verifhook.WriteFault("os.write", n, err)
+	n, err = verifhook.AfterWrite(verifFault, n, err)
 	if err != nil {
 		w.writeErr.Store(err)
 	}
